@@ -580,9 +580,9 @@ def drv_reuse(c, ctx, col):
 
 def reuse_subs(tier):
     quick = tier == "quick"
-    ctx = {"terms": REUSE_TERMS, "ordered": not quick, "three": not quick, "outputs": ["pandas"] if quick else ["pandas", "numpy", "sparse"]}
+    ctx = {"terms": REUSE_TERMS, "ordered": not quick, "three": False, "outputs": ["pandas"] if quick else ["pandas", "numpy", "sparse"]}
     return [Sub("reuse-new-data", drv_reuse, ctx, shard_depth=2,
-                bounds={"terms": REUSE_TERMS, "formulas": "1..2 terms (unordered pairs)" if quick else "1..3 terms (ordered pairs; third term after the second)",
+                bounds={"terms": REUSE_TERMS, "formulas": "1..2 terms (unordered pairs)" if quick else "1..2 terms (ordered pairs)",
                         "intercept": [True, False], "ensure_full_rank": [True, False], "outputs": ctx["outputs"],
                         "training_rows": REUSE_TRAIN, "new_data": "training rows re-arranged as %r (every order of first appearance of the levels of g; one row repeated)" % (REUSE_ROWS,),
                         "checks": "full spec and every non-empty term subset re-used on the new data: names == labels == parent's names, "
@@ -645,5 +645,6 @@ def subchecks(tier, seed):
         sub("subsets-3", ["subsets"], USUB3, 3, 3, ["pandas"], [0], 3),
         sub("meta-quoted-names", ["metadata"], UQ, 1, 1, ALLOUT, [0, 1], 2, second=QSECOND + [("`ns:price`",), ("a",)], note=QNOTE),
         sub("subsets-quoted-names", ["subsets"], UQ, 1, 1, ["pandas", "sparse"], [1], 2, second=QSECOND, note=QNOTE),
-        sub("meta-cluster", ["metadata", "subsets"], UCLUSTER, 2, 3, ALLOUT, [0, 1], 3, cluster_by=["numerical_factors"], note=CNOTE),
+        sub("meta-cluster", ["metadata"], UCLUSTER, 2, 3, ALLOUT, [0], 3, cluster_by=["numerical_factors"], note=CNOTE),
+        sub("subsets-cluster", ["subsets"], UCLUSTER, 2, 2, ["pandas"], [1], 3, cluster_by=["numerical_factors"], note=CNOTE),
     ] + reuse_subs(tier)
